@@ -87,6 +87,25 @@ CLAIMED = {
    "stateless exploration of environment choices (map iteration order) on the real code with a deviation-bounded DFS, plus exhaustive purity enumeration and a static no-synchronisation argument for schedules", "4/C10"),
 }
 
+# universes added after the seeding rounds (appended to the level text)
+EXTRA = {
+ "C01": " Also: results of the set operations fed back as operands (chained), a concurrent-edge family (three edge interiors through one non-vertex point with non-dyadic crossing parameters), many-part operands under translations, float images at 1e-100 and 1e100.",
+ "C02": " Also: chained results, the concurrent-edge family and many-part operands as in C01.",
+ "C09": " Also: chained results, the concurrent-edge family, operands with a repeated vertex at the centre of the lattice, float images at 1e-100 and 1e100.",
+ "C03": " Also: MultiPolygons of 3..6 members from a relation pool under every member order; every (X,Y) pair of special values at every control point.",
+ "C08": " Also: WKT templates with every control point scaled by every value of {1,3e-200,3e200,1e308} (magnitude mixtures).",
+ "C10": " Operands include three edges concurrent at a point with inexact crossings and a 6-member MultiPolygon.",
+ "C11": " 18 layout families incl. magnitudes 1e200, 1e-200, 1e-162, 1e153; Stop wrapped by errors.Join, two %w verbs and twice; a re-entrant callback searching the same tree at the first four and the last stop positions.",
+ "C12": " Also: the envelope lattice scaled by 1e-200, 1e200, 8e307 and 5e-324; every 4..5-vertex sequence of the lattice as a LineString.",
+ "C13": " Also: every subset of 3..4 (thorough 6) points of the 5x5 lattice; operand-unchanged checks after every hull and rectangle.",
+ "C14": " Thorough also: all 149 458 simple polygons of <=7 vertices on 4x4 and those of <=5 vertices as the hole of a frame; float images at 1e-100 and 1e100.",
+ "C15": " Thorough also: all 149 458 simple polygons of <=7 vertices on 4x4 under 4 stretches and those of <=5 vertices as the hole of a frame.",
+ "C17": " Also: a fragile Simplify family (tooth in a notch, hole in a bump) x 15 thresholds; float images at 1e-100 and 1e100.",
+ "C18": " Also: sign-of-zero mutants, Z rings with XY-repeated vertices, IgnoreOrder+ToleranceXY as bipartite matching over all pairs of k-multisets against brute force.",
+ "C19": " Also: equal standard parallels; second graticule shifted by 0.3712345678912345 degrees (thorough: 1-degree graticule on every configuration); every setter/use sequence of length 4 (thorough 7) on each projection object compared bit-for-bit with a fresh object configured from the model record.",
+ "C20": " Transparency operands include polygons strictly containing every base and a far one; all four coordinate types in both tiers.",
+}
+
 PENDING = {}
 
 def main():
@@ -104,7 +123,7 @@ def main():
                 "evidence_file": f"/verif/evidence/{i}.json",
                 "replay_cmd_template": f"./run.sh {i} replay {{path}}",
                 "engine": "verif",
-                "level_claimed": {"category": cat, "text": text, "design_ref": "DESIGN.md §" + ref},
+                "level_claimed": {"category": cat, "text": text + EXTRA.get(i, ""), "design_ref": "DESIGN.md §" + ref},
                 "level_note": note,
                 "technique": tech,
             })
